@@ -40,16 +40,38 @@ def _init_worker():
     faulthandler.enable()
 
 
+_POOLS = {}
+
+
+def get_pool(workers):
+    if workers not in _POOLS:
+        ctx = multiprocessing.get_context("fork")
+        _POOLS[workers] = cf.ProcessPoolExecutor(max_workers=workers, mp_context=ctx, initializer=_init_worker)
+    return _POOLS[workers]
+
+
+def shutdown_pools():
+    for p in _POOLS.values():
+        p.shutdown(wait=False, cancel_futures=True)
+    _POOLS.clear()
+
+
+def map_specs(specs, timeout=120.0, workers=None):
+    """Run all specs, return results in order."""
+    res, _ = run_batch(specs, workers=workers, timeout=timeout)
+    return [res[i] for i in range(len(specs))]
+
+
 def run_batch(specs, workers=None, timeout=120.0, budget_s=None, on_result=None):
     """Run specs on `workers` supervisors; stop submitting once budget_s
     has passed.  Yields results in completion order via on_result and
     returns (results in spec order where available, n_not_run)."""
     workers = workers or min(16, os.cpu_count() or 1)
-    ctx = multiprocessing.get_context("fork")
     results = {}
     t0 = time.monotonic()
     not_run = 0
-    with cf.ProcessPoolExecutor(max_workers=workers, mp_context=ctx, initializer=_init_worker) as ex:
+    ex = get_pool(workers)
+    if True:
         it = iter(enumerate(specs))
         pending = {}
         exhausted = False
